@@ -468,10 +468,12 @@ def par_task(task: tuple) -> dict:
     def on_exec(ch: Any, ex: dict) -> None:
         part.add("evaluations")
         part.add("transitions", ex["steps"])
-        sig = (tuple((n, s.name, tuple(v) if v else None) for n, s, v in ex["trials"]), type(ex["raised"]).__name__)
+        # which of several uncaught exceptions optimize re-raises depends on the iteration order of a
+        # set of futures (optuna's own nondeterminism): not part of the signature
+        sig = (tuple((n, s.name, tuple(v) if v else None) for n, s, v in ex["trials"]), ex["raised"] is None)
         if not first["done"]:
             ex2 = run.execute(Chooser(ch.choices))
-            sig2 = (tuple((n, s.name, tuple(v) if v else None) for n, s, v in ex2["trials"]), type(ex2["raised"]).__name__)
+            sig2 = (tuple((n, s.name, tuple(v) if v else None) for n, s, v in ex2["trials"]), ex2["raised"] is None)
             if sig2 != sig:
                 raise InternalError(f"replaying one schedule twice differed: {task}")
             first["done"] = True
